@@ -192,6 +192,9 @@ type c02Obs struct {
 	perFile   map[int][]int
 	malformed []string
 	tailZ     int // one-byte last lines seen
+	// cutTail: the output ends in the beginning of a record (no newline): the
+	// client exited while that line was being written
+	cutTail bool
 }
 
 // c02TailZ: files that end in a one-byte line "z" without a newline (after
@@ -234,6 +237,11 @@ func c02Parse(out []byte, unterminated map[int]int) c02Obs {
 			// not a record: skip to the end of the line
 			nl := bytes.IndexByte(rest, '\n')
 			if nl < 0 {
+				// the output ends inside a record (the client left while writing it)
+				if bytes.HasPrefix(rest, []byte("F")) {
+					o.cutTail = true
+					break
+				}
 				nl = len(rest) - 1
 			}
 			bad(rest[:nl+1])
@@ -618,7 +626,7 @@ func c02Run(r *vlib.Run, i int, c *c02Case, cfgs map[int]string, free chan *c02S
 		}
 		return map[string]interface{}{"mode": c.Mode, "file_lines": sizes, "glob": c.Glob, "ssh": c.SSH, "limit": c.Limit, "pacing": c.Pace,
 			"pipe_size": c.PipeSize, "exit": res.Exit, "hung": res.Hung, "short_files": missing, "malformed_lines": obs.malformed,
-			"one_byte_last_lines_seen": obs.tailZ, "one_byte_last_lines_expected": wantZ,
+			"one_byte_last_lines_seen": obs.tailZ, "one_byte_last_lines_expected": wantZ, "output_ends_inside_a_record": obs.cutTail,
 			"hook_events": clipStrings(sig, 60), "stderr": vlib.Trunc(string(res.Stderr), 1500), "stdout_bytes": len(out), "points": c.Points}
 	}
 	// compare
@@ -634,6 +642,13 @@ func c02Run(r *vlib.Run, i int, c *c02Case, cfgs map[int]string, free chan *c02S
 			suffixLossOnly = false
 		}
 		lost += len(want) - len(got)
+	}
+	// output that ends inside a record: never exact; in a multi-command session
+	// hit by the recorded command race it is the end of what was delivered
+	// (c07.cmd-race-tail), so it does not spoil "only a suffix is missing"
+	if obs.cutTail {
+		exact = false
+		lost++
 	}
 	// the one-byte last lines: each is the very end of its file
 	if obs.tailZ != wantZ {
